@@ -152,6 +152,15 @@ def run(ctx):
     for case, res, real, model in pipe.run_cases(ctx, cases):
         ctx.count("directed")
         oracle(ctx, case, res, real)
+    # paired-end: each criterion applied to both mates, combined by --pair-filter (shared with C05's generator)
+    from props import c05
+    pc = [c05.criteria_case(ctx) for _ in range(ctx.scale(60, 1000))]
+    for case, res, real, model in pipe.run_cases(ctx, pc):
+        ctx.count("directed-paired-criteria")
+        before = len(ctx.failures)
+        c05.criteria_oracle(ctx, case, real)
+        for f in ctx.failures[before:]:
+            f.signature = "C11/paired-criterion"
 
 
 def extended_search(ctx):
